@@ -184,22 +184,28 @@ package kvql
 //@   trusted thin contract (the registry lookup names its result; body reads the shared function table)
 //@   requires expr != nil
 //@   assigns nothing
-//@   ensures err == nil ==> f != nil && f == scalarFn(expr)
+//@   ensures err == nil ==> f != nil && f == scalarFn(expr) && f.Body != nil
 //
 //@ func (e *FunctionCallExpr) executeFunc(kv KVPair, funcObj *Function, ctx *ExecuteCtx) (ret any, err error)
-//@   props C03
+//@   props C03 C05
 //@   requires e != nil && funcObj != nil && funcObj.Body != nil
+//@   requires[C05] coherent: coherent(ctx, val(kv.Key), val(kv.Value)) && wfCtx(ctx) && wfRefs()
+//@   ensures[C05] coherent: coherent(ctx, val(kv.Key), val(kv.Value))
 //@   assigns ctx.Hit, mapof(ctx.FieldCaches), mapof(ctx.FieldChunkKeyCaches), mapof(ctx.FieldChunkCaches), allof(FunctionCallExpr.Result)
 //@   ensures[C03] arity: err == nil ==> arityOK(funcObj, len(e.Args))
 //
 //@ func (e *FunctionCallExpr) executeFuncBatch(funcObj *Function, chunk []KVPair, ctx *ExecuteCtx) (ret []any, err error)
-//@   trusted thin contract (frame only): the registered bodies are called through function values
-//@   requires e != nil && funcObj != nil
+//@   props C03 C05
+//@   requires e != nil && funcObj != nil && (funcObj.BodyVec != nil || funcObj.Body != nil)
+//@   requires[C05] wf: wfCtx(ctx) && wfRefs()
 //@   assigns ctx.Hit, mapof(ctx.FieldCaches), mapof(ctx.FieldChunkKeyCaches), mapof(ctx.FieldChunkCaches), allof(FunctionCallExpr.Result)
+//@   loop 0
+//@     invariant 0 <= i && i <= len(chunk) && fresh(ret) && len(ret) == len(chunk)
 //
 //@ func (e *FunctionCallExpr) ExecuteBatch(chunk []KVPair, ctx *ExecuteCtx) (ret []any, err error)
-//@   props C03
+//@   props C03 C05
 //@   requires e != nil
+//@   requires[C05] wf: wfCtx(ctx) && wfRefs()
 //@   assigns ctx.Hit, mapof(ctx.FieldCaches), mapof(ctx.FieldChunkKeyCaches), mapof(ctx.FieldChunkCaches), allof(FunctionCallExpr.Result)
 //@   ensures[C03] arity: err == nil && e.Result == nil ==> arityOK(scalarFn(e), len(e.Args))
 //@   loop 0
@@ -207,6 +213,8 @@ package kvql
 //
 // The registered function bodies (called through function values): frame only.
 //@ functype FunctionBody(body FunctionBody, kv KVPair, args []Expression, ctx *ExecuteCtx) (ret any, err error)
+//@   requires[C05] coherent: coherent(ctx, val(kv.Key), val(kv.Value)) && wfCtx(ctx) && wfRefs()
+//@   ensures[C05] coherent: coherent(ctx, val(kv.Key), val(kv.Value))
 //@   assigns ctx.Hit, mapof(ctx.FieldCaches), mapof(ctx.FieldChunkKeyCaches), mapof(ctx.FieldChunkCaches), allof(FunctionCallExpr.Result)
 //@ functype VectorFunctionBody(body VectorFunctionBody, chunk []KVPair, args []Expression, ctx *ExecuteCtx) (ret []any, err error)
 //@   assigns ctx.Hit, mapof(ctx.FieldCaches), mapof(ctx.FieldChunkKeyCaches), mapof(ctx.FieldChunkCaches), allof(FunctionCallExpr.Result)
